@@ -130,6 +130,7 @@ Fixpoint node_prog (is_stream : bool) (parent : ukey) (opts : list copt) (n : gn
          (PSeq (PAtom (OOn uid (start_timing_of p)))
             (PSeq (par_list (map (fun c => atoms (call_ops is_stream uid c)) calls))
                   (PAtom (OOn uid (if failed then TError else end_timing_of p))))), failed)
+  | GStop => (PNil, true)
   end.
 
 Definition graph_prog (is_stream : bool) (g : ukey) (ginf : info) (opts : list copt)
@@ -145,6 +146,7 @@ Fixpoint uids (n : gnode) : list ukey :=
   | GPass uid _ => [uid]
   | GSub uid _ _ stages => uid :: flat_map (flat_map uids) stages
   | GTools uid _ _ calls => uid :: map (fun c : ukey * info * N * bool => fst (fst (fst c))) calls
+  | GStop => []
   end.
 Definition stages_uids (stages : list (list gnode)) : list ukey := flat_map (flat_map uids) stages.
 
@@ -191,6 +193,7 @@ Fixpoint node_table (is_stream : bool) (inh : list handler) (opts : list copt) (
       ({| ue_unit := uid; ue_info := inf; ue_list := l;
           ue_timings := [start_timing_of p; if failed then TError else end_timing_of p] |}
        :: map (call_uexp is_stream l) calls, failed)
+  | GStop => ([], true)
   end.
 
 Definition graph_table (is_stream : bool) (g : ukey) (ginf : info) (opts : list copt)
@@ -235,6 +238,7 @@ Fixpoint node_table_p (is_stream : bool) (inh : list handler) (opts : list copt)
       (({| ue_unit := uid; ue_info := inf; ue_list := l;
            ue_timings := [start_timing_of p; if failed then TError else end_timing_of p] |}, path ++ [key])
        :: map (fun c => (call_uexp is_stream l c, path ++ [key])) calls, failed)
+  | GStop => ([], true)
   end.
 
 Definition graph_table_p (is_stream : bool) (g : ukey) (ginf : info) (opts : list copt)
